@@ -35,13 +35,13 @@ FLUID = {"c0": 1.5, "c1": 0.0, "r0": 2.0, "r1": 0.0, "f0": 0.004, "f1": 0.0, "f2
 GEOM = dict(r=12.0, t=1.0, h=100.0)
 
 
-def tube_spec(rng, times, dim, mult=1, plane=None, flux_level=None, nr=None, nt=None, nz=None, T0=550.0, uniform=False):
+def tube_spec(rng, times, dim, mult=1, plane=None, flux_level=None, nr=None, nt=None, nz=None, T0=550.0, uniform=False, settled=False):
     nr = nr or rng.randint(3, 4)
     nt = nt or rng.randint(3, 4)
     nz = nz or rng.randint(2, 3)
     lvl = flux_level if flux_level is not None else rng.choice([1.0, 2.0, 3.0])
     if uniform or dim < 3:
-        flux = [[[lvl * (1.0 + 0.25 * ti) for _ in range(nz)] for _ in range(nt)] for ti in range(len(times))]
+        flux = [[[lvl * (1.0 + (0.0 if settled else 0.25 * ti)) for _ in range(nz)] for _ in range(nt)] for ti in range(len(times))]
     else:
         flux = [[[lvl * (1.0 + 0.125 * j + 0.25 * k) for k in range(nz)] for j in range(nt)] for _ in times]
     return {"r": GEOM["r"], "t": GEOM["t"], "h": GEOM["h"], "nr": nr, "nt": nt, "nz": nz, "T0": T0, "mult": mult, "dim": dim,
@@ -105,7 +105,10 @@ def gen_setup(rng, cid):
 
 
 def gen_energy(rng, cid, offmid=False):
-    times = [0.0, 1.0, 2.0] if rng.random() < 0.5 else [0.0, 1.0]
+    # every fourth receiver: the incident flux stays what it was while only the fluid's operating point (inlet temperature,
+    # mass flow) changes from step to step, so that a metal solve may reproduce the previous step
+    settled = cid % 4 == 2 and not offmid
+    times = [0.0, 1.0, 2.0] if (settled or rng.random() < 0.5) else [0.0, 1.0]
     npan = rng.randint(1, 3)
     names = [str(i) for i in range(npan)]
     panels = []
@@ -116,7 +119,7 @@ def gen_energy(rng, cid, offmid=False):
         for _ in range(rng.randint(1, 2)):
             pl = GEOM["h"] * 0.25 if offmid else None
             tubes.append(tube_spec(rng, times, dimp if not offmid else 1, mult=rng.choice([1, 2, 3, 5]), plane=pl,
-                                   nt=gnt, nz=gnz, T0=rng.choice([550.0, 550.0, 500.0, 625.0])))   # tubes of one panel may start differently
+                                   nt=gnt, nz=gnz, T0=rng.choice([550.0, 550.0, 500.0, 625.0]), settled=settled))   # tubes of one panel may start differently
         panels.append([n, tubes])
     order = names[:]
     rng.shuffle(order)        # declared order differs from insertion order
@@ -126,10 +129,16 @@ def gen_energy(rng, cid, offmid=False):
         paths = [order]
     fps = [["f%d" % i, {"panels": p, "mass_flow": [rng.choice([60.0, 90.0])] * len(times),
                         "inlet": [500.0 + 10.0 * ti for ti in range(len(times))]}] for i, p in enumerate(paths)]
+    if settled:
+        for _, fp in fps:
+            fp["mass_flow"] = [60.0, 60.0, 90.0]
+            fp["inlet"] = [500.0, 500.0, 540.0]
     c = base_case(cid, times, panels, fps)
+    if settled:
+        c["pset"] = {}            # the solver's own Picard tolerances: a step must not be accepted before the fluid has settled too
     if cid % 2:
         c["page"] = True          # results paged to disk (one scratch directory per run)
-    c["meta"] = {"kind": "offmid" if offmid else "energy", "paths": paths}
+    c["meta"] = {"kind": "offmid" if offmid else "energy", "paths": paths, "tol": 1e-3 if settled else 1e-5}
     return c
 
 
@@ -309,7 +318,7 @@ def run(ctx):
                         outs.append(ft[:, -1])
                     prev_out = np.sum(ws[:, None] * np.array(outs), axis=0) / ws.sum()
             for fname, gain, heat in path_gain_and_input(c, r):
-                if abs(gain - heat) > 1e-5 * abs(heat):
+                if abs(gain - heat) > c["meta"].get("tol", 1e-5) * abs(heat):
                     tag = KF_TAG if kind == "offmid" else None
                     findings.append((c, "path %s: the fluid gains %.6g but %.6g enters the tubes' outer surfaces (ratio %.6f)"
                                      % (fname, gain, heat, gain / heat), tag))
